@@ -16,6 +16,9 @@ EQH = ['emp1,emp2,emp3,emp4,emp5,emp6;get4,get6;get5,era5', 'emp1,emp2,emp3,emp4
 # a reader between its key match and its value load while the key is erased and ANOTHER key takes the freed slot (array part of the bucket,
 # last item / middle item / full array): only the version the removal bumps tells the reader that the slot changed hands
 SLOT = ['emp1,emp2;era2,emp3;get2,get3', 'emp1;era1,emp2;get1,get2', 'emp1,emp2,emp3;era3,emp4;get3,get4', 'emp1,emp2,emp3;era1,emp4;get3,get1', 'emp1,emp2;ext2,emp3;get2;get3']
+# a 128-bucket block whose extension items are all in use (3 array slots + 10 extension items in one bucket): the next emplace grows the table while a
+# lock-free reader looks for a key that lives in an extension item - grow must not change what a reader of the OLD block sees (seeded change c10_5)
+GROWEXT = [','.join('emp%d' % i for i in range(1, 14)) + ';emp14;get5', ','.join('emp%d' % i for i in range(1, 14)) + ';emp14,get13;get9,get4']
 GROW = [';emp1,emp2,emp3,emp4,emp5;get1,emp6,get5', ';emp1,emp2,emp3,emp4;emp5,emp6,emp7,emp8;get3,get7', 'emp1,emp2,emp3;emp4,emp5,era1;emp6,get1,get4']
 
 
@@ -44,6 +47,9 @@ def run(ctx):
                 deep.append('vy128%sc/%s;%s' % (m, r, p))
                 if not q:
                     deep.append('vy1%sc/%s;%s' % (m, r, p))
+            for p in GROWEXT:
+                if (m in ('ii', 'sm') and r in ('ebr0', 'hp3')) or not q:
+                    deep.append('vy128%sc/%s;%s' % (m, r, p))
             for p in SLOT:
                 n += 1
                 if q and not (m in ('ii', 'is') and r in ('hp3', 'ebr0')) and (n + ctx.seed) % 9 != 0:
